@@ -98,7 +98,8 @@ ArgDomain == [ hreg   : {"none", "ok", "noprox", "nolh", "lhzero"},
                rhoend : {"ok", "neg"},
                order  : {"ok", "rhobeg_le_rhoend"},
                maxfun : {"ok", "zero"},
-               gap    : {"ok", "narrow"},
+               gap    : {"ok", "narrow", "scaled_ok", "scaled_narrow"},   \* scaled_*: scaling_within_bounds, where the box is [0,1]^n and rhobeg is in scaled units
+                                                                          \* (scaled_ok: user box narrower than 2*rhobeg; scaled_narrow: wide user box, rhobeg > 1/2)
                safety : {"ok", "both"},          \* growing.safety.full_geom_step and growing.safety.reduce_delta
                grow   : {"ok", "both"},          \* growing.full_rank.use_full_rank_interp and growing.perturb_trust_region_step
                noise  : {"ok", "both", "both_zero"}, \* both noise levels given while quitting on noise level (one of them at its boundary 0.0)
@@ -116,7 +117,7 @@ Validate(a) ==
   ELSE IF a.rhoend # "ok" THEN "rhoend"
   ELSE IF a.order # "ok" THEN "order"
   ELSE IF a.maxfun # "ok" THEN "maxfun"
-  ELSE IF a.gap # "ok" THEN "gap"
+  ELSE IF a.gap \in {"narrow", "scaled_narrow"} THEN "gap"
   ELSE IF a.safety # "ok" THEN "safety"
   ELSE IF a.grow # "ok" THEN "grow"
   ELSE IF a.noise # "ok" THEN "noise"
@@ -168,7 +169,7 @@ TableOK == /\ Len(KeyTable) = 71
            /\ \A i, j \in 1..Len(KeyTable) : i # j => KeyTable[i].key # KeyTable[j].key
            /\ \A i \in 1..Len(KeyTable) : KeyTable[i].type \in {"bool", "int", "float"} /\ (KeyTable[i].type = "bool" => KeyTable[i].lo = "none" /\ KeyTable[i].hi = "none")
 \* every invalid argument class is reported (never "valid") and exactly the all-ok combinations are valid
-ValidateTotal == kind = "arg" => ((Validate(st) = "valid") <=> (\A f \in DOMAIN st : st[f] \in {"ok", "none"}))
+ValidateTotal == kind = "arg" => ((Validate(st) = "valid") <=> (\A f \in DOMAIN st : st[f] \in {"ok", "none", "scaled_ok"}))
 
 Emit == PrintT("STATE" \o ToJson([kind |-> kind, st |-> st, expected |-> Expected]))
 EmitInv == Emit
